@@ -38,7 +38,10 @@ const POOL = [
   ['method-args', "s.concat(a, 'x', b());"],
   ['proto-call', 'String.prototype.trim.call(a);'],
   ['bare', 'aloneMethod(a);'],
-  ['arrow-expr', 'const f1 = (p) => p + a;']
+  ['arrow-expr', 'const f1 = (p) => p + a;'],
+  // substitutions that are sums the rewriter leaves in place (literal-only): a hook without operands
+  ['tpl-literal-sum-subst', 'const v1 = `${1 + 2}px`;'],
+  ['tpl-two-literal-sum-substs', "const v2 = `${'a' + 'b'}-${1 + 2}`;"]
 ]
 
 function permProgram (idxs) { return 'function host(a, b, c, o, s) {\n' + idxs.map(i => '  ' + POOL[i][1]).join('\n') + '\n  return s;\n}\n' }
